@@ -5,6 +5,7 @@ package main
 
 import (
 	"fmt"
+	"go/constant"
 	"go/token"
 	"go/types"
 	"sort"
@@ -630,6 +631,19 @@ func c12NoRecordDropped(c *Ctx, r *Report) {
 				}
 				return false
 			}
+			// the output list, or a load of the cell it was spilled to (go/ssa spills the
+			// parameters of a function with a range-over-func loop: its yield closure captures them)
+			isOut := func(v ssa.Value) bool {
+				if v == outlist {
+					return true
+				}
+				if ld, ok := v.(*ssa.UnOp); ok && ld.Op == token.MUL {
+					if al, ok := ld.X.(*ssa.Alloc); ok {
+						return onlyStoreIs(al, outlist)
+					}
+				}
+				return false
+			}
 			bad := ""
 			var walk func(b *ssa.BasicBlock, seen map[*ssa.BasicBlock]bool)
 			walk = func(b *ssa.BasicBlock, seen map[*ssa.BasicBlock]bool) {
@@ -643,18 +657,18 @@ func c12NoRecordDropped(c *Ctx, r *Report) {
 				seen2[b] = true
 				// a loop whose body emits counts as emitting when the loop is known to run at least
 				// once: it is entered on the non-empty edge of a test of the container it walks
-				if blockReachesSelf(b) && loopKnownNonEmpty(b) {
+				if blockReachesSelf(b) && (loopKnownNonEmpty(b) || loopOverNonEmptySplit(b)) {
 					for _, lb := range fn.Blocks {
 						if !(blockReaches(b, lb) && blockReaches(lb, b)) {
 							continue
 						}
 						for _, in := range lb.Instrs {
-							if st, ok := in.(*ssa.Store); ok && st.Addr == outlist {
+							if st, ok := in.(*ssa.Store); ok && isOut(st.Addr) {
 								return
 							}
 							if call, ok := in.(ssa.CallInstruction); ok {
 								for _, a := range call.Common().Args {
-									if a == outlist {
+									if isOut(a) {
 										return
 									}
 								}
@@ -665,8 +679,11 @@ func c12NoRecordDropped(c *Ctx, r *Report) {
 				for _, in := range b.Instrs {
 					switch x := in.(type) {
 					case *ssa.Store:
-						if x.Addr == outlist {
+						if isOut(x.Addr) {
 							return // emitted
+						}
+						if al, ok := x.Addr.(*ssa.Alloc); ok && x.Val == outlist && onlyStoreIs(al, outlist) {
+							continue // the spill of the parameter itself
 						}
 						if isRec(x.Val) {
 							if _, local := x.Addr.(*ssa.Alloc); !local {
@@ -676,12 +693,19 @@ func c12NoRecordDropped(c *Ctx, r *Report) {
 					case ssa.CallInstruction:
 						com := x.Common()
 						for _, a := range com.Args {
-							if a == outlist {
+							if isOut(a) {
 								return // delegated
 							}
-							// a range-over-func loop body (or any callback) that emits: the closure captures the output list
+							// a range-over-func loop body (or any callback) that emits: the closure captures
+							// the output list. A loop over strings.SplitSeq runs at least once only when the
+							// string split is known to be non-empty here.
 							if mc, ok := a.(*ssa.MakeClosure); ok {
 								if cf, ok := mc.Fn.(*ssa.Function); ok && closureEmits(cf, mc, outlist) {
+									if seq, ok := com.Value.(*ssa.Call); ok && CalleeName(&seq.Call) == "strings.SplitSeq" {
+										if !stringKnownNonEmpty(seq.Call.Args[0], b) {
+											continue
+										}
+									}
 									return
 								}
 							}
@@ -729,8 +753,6 @@ func c12NoRecordDropped(c *Ctx, r *Report) {
 }
 
 var manyToOne = map[string]string{
-	"(*pkg/transformers.TransformerNest).explodeValuesAcrossRecords": "the emitting loop ranges over strings.SplitSeq, which yields at least one piece for every input (the empty string gives one empty piece), so every record gives at least one output record",
-	"(*pkg/transformers.TransformerNest).explodePairsAcrossRecords":  "as above: strings.SplitSeq yields at least one piece",
 	"(*pkg/transformers.TransformerNest).implodeValueAcrossRecords": "many-to-one mode: records whose other fields are equal are merged into the first of them (kept as the bucket's representative); of the later ones only the imploded field's value is kept, by design",
 	"(*pkg/transformers.TransformerReshape).longToWide":             "many-to-one mode: the long records of one group are merged into one wide record; each record's key/value pair is stored in the bucket, the record itself is not passed on, by design",
 }
@@ -814,6 +836,104 @@ func loopKnownNonEmpty(b *ssa.BasicBlock) bool {
 					return true
 				}
 			}
+		}
+	}
+	return false
+}
+
+// onlyStoreIs: every store to the local cell al stores v.
+func onlyStoreIs(al *ssa.Alloc, v ssa.Value) bool {
+	n := 0
+	for _, ref := range *al.Referrers() {
+		if st, ok := ref.(*ssa.Store); ok && st.Addr == al {
+			if st.Val != v {
+				return false
+			}
+			n++
+		}
+	}
+	return n > 0
+}
+
+// stringKnownNonEmpty: block b is reached only when the string s is not
+// empty (s != "", !(s == ""), len(s) > 0, len(s) != 0 on the edge taken).
+// strings.Split and strings.SplitSeq of a non-empty string give at least one
+// piece whatever the separator; of an empty string they give none when the
+// separator is empty too.
+func stringKnownNonEmpty(s ssa.Value, b *ssa.BasicBlock) bool {
+	same := func(v ssa.Value) bool {
+		if v == s {
+			return true
+		}
+		la, ok1 := v.(*ssa.UnOp)
+		lb, ok2 := s.(*ssa.UnOp)
+		if ok1 && ok2 && la.X == lb.X {
+			if al, ok := la.X.(*ssa.Alloc); ok {
+				n := 0
+				for _, ref := range *al.Referrers() {
+					if st, ok := ref.(*ssa.Store); ok && st.Addr == al {
+						n++
+					}
+				}
+				return n == 1
+			}
+		}
+		return false
+	}
+	isEmptyConst := func(v ssa.Value) bool {
+		c, ok := v.(*ssa.Const)
+		return ok && c.Value != nil && c.Value.Kind() == constant.String && constant.StringVal(c.Value) == ""
+	}
+	isZero := func(v ssa.Value) bool {
+		c, ok := v.(*ssa.Const)
+		if !ok || c.Value == nil || c.Value.Kind() != constant.Int {
+			return false
+		}
+		n, ok := constant.Int64Val(c.Value)
+		return ok && n == 0
+	}
+	for _, g := range GuardsAt(b) {
+		x, ok := g.Cond.(*ssa.BinOp)
+		if !ok {
+			continue
+		}
+		if same(x.X) && isEmptyConst(x.Y) || same(x.Y) && isEmptyConst(x.X) {
+			if (x.Op == token.NEQ && g.Polarity) || (x.Op == token.EQL && !g.Polarity) {
+				return true
+			}
+		}
+		if call, ok := x.X.(*ssa.Call); ok && isZero(x.Y) {
+			if bi, ok := call.Call.Value.(*ssa.Builtin); ok && bi.Name() == "len" && same(call.Call.Args[0]) {
+				if (x.Op == token.NEQ && g.Polarity) || (x.Op == token.EQL && !g.Polarity) || (x.Op == token.GTR && g.Polarity) {
+					return true
+				}
+			}
+		}
+	}
+	return false
+}
+
+// loopOverNonEmptySplit: the loop headed by b ranges over the slice that
+// strings.Split gave for a string known to be non-empty here.
+func loopOverNonEmptySplit(b *ssa.BasicBlock) bool {
+	for _, in := range b.Instrs {
+		cmp, ok := in.(*ssa.BinOp)
+		if !ok || cmp.Op != token.LSS {
+			continue
+		}
+		ln, ok := cmp.Y.(*ssa.Call)
+		if !ok {
+			continue
+		}
+		if bi, ok := ln.Call.Value.(*ssa.Builtin); !ok || bi.Name() != "len" {
+			continue
+		}
+		split, ok := ln.Call.Args[0].(*ssa.Call)
+		if !ok || CalleeName(&split.Call) != "strings.Split" {
+			continue
+		}
+		if stringKnownNonEmpty(split.Call.Args[0], b) {
+			return true
 		}
 	}
 	return false
